@@ -667,6 +667,20 @@ class EvalMixin(InterpBase):
             if kind in ("np", "re", "math", "os"):
                 from . import models
                 return models.call_library(self, kind, f.what[1], args, kwargs, fr)
+        if isinstance(f, Opaque) and f.what in ("dataclasses:fields", ("dataclasses", "fields")) and len(args) == 1 and isinstance(args[0], Obj) \
+                and args[0].cls is not None:
+            # dataclasses.fields(obj): the declared fields in definition order (only their .name is modelled)
+            return ListV([RecV("Field", {"name": n}) for (n, _d, _ann, _c) in self.index.dataclass_fields(args[0].cls)], kind="tuple")
+        if isinstance(f, Opaque) and f.what in ("copy:copy", ("copy", "copy")) and len(args) == 1:
+            v = args[0]
+            if isinstance(v, ListV):
+                return v.copy()                 # a new list object holding the same elements
+            if isinstance(v, DictV):
+                return type(v)(v.d)
+            if isinstance(v, Obj):
+                o = Obj(v.cls, dict(v.fields))
+                return o
+            return v                            # immutable values
         raise Unsupported(f"call of {f!r}")
 
     def call_specdef(self, name, args, fr):
